@@ -123,3 +123,52 @@ Theorem C02_cubic_edge_rows_chained :
   | cons e _ => exists w, (w = 1 \/ w = -1)%Z /\ chained w (e_first_y e) ls
   end.
 Proof. exact cubic_edge_lines_chained. Qed.
+
+(* ---- paths with quadratic segments (Model/CurveFill.v: the unclipped route of the edge builder, chopping at the y extremum in
+   binary32, curve edges as the lists of their lines; fill_spans / aa_spans correspondence on curved paths) ---------------------- *)
+From Coq Require Import Lia.
+From TS Require Import Model.CurveFill Proofs.CurveFillProofs.
+
+(* the lines of a quadratic edge tile EXACTLY the rows between the rounded FDot6 ordinates of its two end points: first row
+   round(min y), one row past the last round(max y), contiguous, never reversed, all with the winding of the direction *)
+Theorem C02_quad_edge_rows :
+  forall p0 p1 p2 sh ls,
+  quad_edge_lines p0 p1 p2 sh = Some ls ->
+  let y0 := fd6 (py p0) sh in let y2 := fd6 (py p2) sh in
+  exists top bot, fdot6_round (Z.min y0 y2) = Some top /\ fdot6_round (Z.max y0 y2) = Some bot /\
+    chained_to (if y2 <? y0 then -1 else 1) top ls bot.
+Proof. exact quad_edge_lines_rows. Qed.
+
+(* hence every row is balanced for every path made of lines and quadratic segments, at every supersampling shift: the windings
+   of the edges active on a row sum to zero (chopping at the extremum only inserts a shared point, every contour is closed) *)
+Theorem C02_quad_path_balanced :
+  forall p shift es, build_edges_curves p shift = Some (Some es) -> ~ In Cubic (pverbs p) ->
+  (forall y, rowsum es y = 0) /\ Forall wf1 es.
+Proof. exact build_edges_curves_balanced. Qed.
+
+(* and the fill theorem holds for them without a balance hypothesis: a column is covered on a walked row exactly when the fill
+   rule accepts the winding sum of the (line and curve-line) edges at or left of it *)
+Theorem C02_quad_path_fill_spec :
+  forall p es start stop rc eo out,
+  build_edges_curves p 0 = Some (Some es) -> ~ In Cubic (pverbs p) -> fill_spans es start stop rc eo 0 = Some out ->
+  (forall e, In e es -> start <= e_first_y e) -> 0 <= start -> 0 <= stop ->
+  exists acts : Z -> list ledge,
+    (forall yy, start <= yy -> (yy < stop \/ yy = start) -> asc (acts yy) /\ Permutation (acts yy) (active_at es yy)) /\
+    forall yy c, start <= yy -> (yy < stop \/ yy = start) -> (forall e, In e (acts yy) -> x_ok e) ->
+      (cov out yy c <-> masked (wsum (xs_of (active_at es yy)) c) eo = true).
+Proof. exact quad_path_fill_spec. Qed.
+
+(* the curve-aware builder is a conservative extension of the line builder *)
+Theorem C02_curve_builder_extends_line_builder :
+  forall p shift r, build_edges p shift = Some r -> build_edges_curves p shift = Some r.
+Proof. exact build_edges_curves_lines. Qed.
+
+(* non-vacuity: a closed contour M(2,1) Q(12,3)(3,9) L(2,1): the quad is chopped nowhere (monotone in y), becomes a curve edge of
+   several lines; with the control point at y = 11 it is chopped in two
+   (points given by their bit patterns; the statements compare integers only) *)
+Definition C02_P (x y : Z) : pt := mkpt (F32.of_bits x) (F32.of_bits y).
+Example C02_quad_path_example :
+  option_map (@length _) (quad_edge_lines (C02_P 1073741824 1065353216) (C02_P 1094713344 1077936128) (C02_P 1077936128 1091567616) 0) = Some 7%nat /\
+  length (chop_quad_at_y_extrema (C02_P 1073741824 1065353216) (C02_P 1094713344 1077936128) (C02_P 1077936128 1091567616)) = 1%nat /\
+  length (chop_quad_at_y_extrema (C02_P 1073741824 1065353216) (C02_P 1094713344 1093664768) (C02_P 1077936128 1091567616)) = 2%nat.
+Proof. split; [vm_compute; reflexivity|]. split; vm_compute; reflexivity. Qed.
